@@ -156,10 +156,11 @@ func TestProp(t *testing.T) {
 	// check that first looks whether the optional field is there must agree on everything else)
 	for _, et := range ref.ETypes {
 		for _, d := range DefectNames {
-			if d == "start-absent" {
-				continue
+			for _, absent := range []string{"start-absent", "kvno-absent"} {
+				if d != absent {
+					jobs = append(jobs, job{et, []string{d, absent}, setting{0, false, "", "", true}, "HTTP/svc.example.com"})
+				}
 			}
-			jobs = append(jobs, job{et, []string{d, "start-absent"}, setting{0, false, "", "", true}, "HTTP/svc.example.com"})
 		}
 	}
 	// the PAC grid: every PAC condition at every position among the ticket's authorization data, PAC decoding on and off
@@ -182,7 +183,7 @@ func TestProp(t *testing.T) {
 			r.Violation("enum", c, Eval(c))
 		}
 	}
-	r.Rule("enum (starttime absent): every etype x every single defect applied to a ticket whose optional starttime is absent")
+	r.Rule("enum (optional field absent): every etype x every single defect applied to a ticket whose optional starttime is absent, and to one whose enc-part kvno is absent")
 	r.Rule("enum (replay after volume): for every etype an accepted AP-REQ, then 1500 / 5000 further valid AP-REQs of the same client at other client times, then the first one again: refused with KRB_AP_ERR_REPEAT")
 	r.Rule("enum (PAC grid): every etype x PAC {good, bad server signature, five unparseable shapes} x position of its AD-IF-RELEVANT container among the ticket's authorization data {behind an empty container, behind a KERB-AD-RESTRICTION-ENTRY container, behind both, in front of another} x PAC decoding on / off")
 	r.Rule(fmt.Sprintf("enum: every etype x {valid, every single defect} x all %d settings combinations (quick: a seeded 1/3 slice) + defect pairs (thorough: every ordered pair under default and one rotating setting; quick: a seeded 1/40 slice)", len(settings)))
